@@ -1884,6 +1884,39 @@ def check_C08(ctx, unit):
                                     a_.n, n.loc, m_.callee["n"], m_.loc))
             ctx.inst("K.stale-after-root-merge", g_.sig, not bad, g_.loc, "; ".join(sorted(set(bad))[:2]) if bad else
                      "%d root merge(s); no neighbour snapshot is used afterwards" % len(merges), g_)
+    # the root leaves: wherever remove() knows that the element it takes out is the root, the root is replaced before it returns
+    ctx.rule("H.root-replaced", "remove(): on every path on which the element is known to be the root (a test or assertion "
+             "`_root == element`), `_root` is reassigned or pop() is called before the function returns; pop() reassigns `_root` "
+             "on every path", 2)
+    for name_ in ("remove", "pop"):
+        for g_ in fns.get(name_, [])[:1]:
+            pe_ = g_.params()[0]["d"] if g_.params() else None
+
+            def tr_(n, st, g_=g_):
+                isr, wr = st
+                w = write_of(n) if n.kind in ("BinaryOperator", "CompoundAssignOperator") else None
+                if w and w[0] == ("this", "_root"):
+                    return [(isr, True)]
+                if n.is_call() and n.callee and n.callee["n"] == "pop" and n.kind == "CXXMemberCallExpr" and path(n.child("obj")) == ("this",):
+                    return [(isr, True)]
+                return [st]
+
+            def rf_(cond, truth, st, pe_=pe_):
+                isr, wr = st
+                rel = flow.fact_relation(cond, truth)
+                if rel is not None and rel[1] in ("==", "!="):
+                    a_, b_ = std_unwrap(rel[0]), std_unwrap(rel[2])
+                    pa, pb = path(a_), path(b_)
+                    for x_, px_, y_ in ((a_, pa, b_), (b_, pb, a_)):
+                        if px_ == ("this", "_root") and y_.kind == "DeclRefExpr" and y_.d.get("d") == pe_:
+                            return [((rel[1] == "=="), wr)]
+                return [st]
+            init_ = (True if name_ == "pop" else None, False)
+            _, ex_ = flow.run(g_, [init_], tr_, rf_)
+            bad_ = [e for e in ex_ if e[0] is True and not e[1]]
+            ctx.inst("H.root-replaced", "%s::%s" % (PH, name_), not bad_ and bool(ex_), g_.loc,
+                     "a path leaves %s() with the removed element still installed as `_root` (e.g. the sole element: no child to "
+                     "replace it)" % name_ if bad_ else "`_root` is replaced on every path that takes the root out", g_)
     ctx.rule("K.param-consumed", "no parameter of a heap function is assigned on a path on which it has not been read: the heap "
              "or element the caller handed in (an accumulator, a list head) would be dropped on that path", 1)
     n_p, bad_p = 0, []
